@@ -175,3 +175,25 @@ Fixpoint trace_eqb (a b : list event) : bool :=
   | x :: a', y :: b' => event_eqb x y && trace_eqb a' b'
   | _, _ => false
   end.
+
+(* ---------- execution modes (Model/Modes.v) ----------
+   The extender set a compute-framework object holds.  SYNC: the caller's set object itself, iterated in `order`.
+   THREADING / MULTIPROCESSING: the set went through the manager process and every compute-framework object was created
+   with its own unpickled copy -- equal elements (same priority, hooks, behaviour; the state of a copy is its own), an
+   iteration order of its own; in MULTIPROCESSING the object is then forked into its worker process, where the wrapped
+   calls run.  `copy s` is the iteration order of the copy used by the compute-framework object of step s. *)
+Require Import MV.Model.Modes.
+
+Definition held (m : pmode) (order : list extender) (copy : nat -> list extender) (s : nat) : list extender :=
+  if shares_objects m then order else copy s.
+
+Fixpoint run_calls_in (m : pmode) (order : list extender) (copy : nat -> list extender) (fails : call -> bool)
+                      (cs : list call) : list (call * list event) * bool :=
+  match cs with
+  | [] => ([], false)
+  | c :: r =>
+      match run_wrapped (kind_hook (snd c)) (held m order copy (fst c)) (wrapped (call_result fails c)) with
+      | (t, Ok _) => let (l, fl) := run_calls_in m order copy fails r in ((c, t) :: l, fl)
+      | (t, Err _) => ([(c, t)], true)
+      end
+  end.
